@@ -137,6 +137,10 @@ fn harvest(mut p: Pending) -> String {
                 if st.success() && !line.is_empty() {
                     return line;
                 }
+                if st.code() == Some(3) {
+                    // the child's own limit fired (we looked late): it was still parsing
+                    return "diverge".to_string();
+                }
                 return format!("crash {:?}", st.code());
             }
             Ok(None) => {
@@ -334,6 +338,24 @@ pub fn run(rep: &mut Report) {
         made += 1;
     }
 
+    // ---- the repository's own fixtures (events taken from quick-xml: there is no tree) ----------------
+    if let Ok(rd) = std::fs::read_dir("/repo/test/jacoco") {
+        let mut files: Vec<PathBuf> = rd.filter_map(|e| e.ok()).map(|e| e.path()).filter(|p| p.extension().map(|e| e == "xml").unwrap_or(false)).collect();
+        files.sort();
+        for f in files {
+            let xml = match std::fs::read(&f) {
+                Ok(b) => b,
+                Err(_) => continue,
+            };
+            if let Some(events) = qx_events(&xml) {
+                let imp = run_impl(&xml);
+                rep.case(&fhex(&xml), true);
+                rep.count("fixture.repo_test_jacoco");
+                cases.push(Case { stream: "fixture".into(), request: request_of(&events), xml, spec: None, imp, child: false, timeout_ms: 0 });
+            }
+        }
+    }
+
     // ---- well-formed stream: oracle + tie ---------------------------------------------------------------
     let n = rep.budget(3000, 10);
     let cfg = Cfg::full();
@@ -449,7 +471,9 @@ pub fn run(rep: &mut Report) {
         let mut sampled: Vec<&str> = vec![];
         for (c, mo) in cases.iter().zip(model.iter()) {
             let kind: String = c.imp.split(' ').take(if c.imp.starts_with("err") { 2 } else { 1 }).collect::<Vec<_>>().join(" ");
-            if c.stream != "wellformed" {
+            if c.stream == "fixture" {
+                rep.count(&format!("fixture.outcome.{}", kind));
+            } else if c.stream != "wellformed" {
                 rep.count(&format!("malformed.{}", kind));
             } else {
                 rep.count(&format!("wf.outcome.{}", kind));
@@ -509,6 +533,8 @@ pub fn run(rep: &mut Report) {
         }
     }
     check_alloc(rep, &alloc_witness, harvest(alloc_child));
+    rep.notes.push("streams: fixtures of /repo/test/jacoco; well-formed trees (oracle sem + model tie); malformed trees (model tie; outcome kinds counted under malformed.*); truncation inside a package (child process, 1.5 s limit, expected observation: no answer = model's diverge); unescape / parsenum / isjacoco helper ties; two named findings checked once per run in child processes".into());
+    rep.notes.push("every event list sent to the model is checked against quick-xml's own tokenizer on the same bytes (harness.serialiser_mismatch counts differences: none expected)".into());
 }
 
 fn check_alloc(rep: &mut Report, xml: &[u8], out: String) {
